@@ -57,5 +57,89 @@ CHECKS["C09"] = {
     "ref": "§5 C09",
 }
 
+CHECKS["C06"]["ref"] = "§5 C06"
+CHECKS["C07"] = {
+    "technique": "bounded exhaustive enumeration of (callee, caller shape, binding route, profiles), all inputs, against CPython executing caller+callee",
+    "text": "Seven callees x ~100 caller shapes (swapped/repeated arguments, tuple and list elements of bool and int type, nested calls, expression "
+            "arguments, calls under if / in loops, clashing names) x routes {defs=, inline def, oraclize for every target value}; the caller's "
+            "expressions are compared on all inputs with CPython running both sources; free symbols and the callee's fingerprint are checked.",
+    "note": "Trusted: pyref, boolev. Callee arity <= 2, widths <= 4 bits.",
+    "ref": "§5 C07",
+}
+CHECKS["C08"] = {
+    "technique": "bounded exhaustive enumeration of parameterised programs x full product of parameter values x all keyword orders; bind histories up to length 3",
+    "text": "Every bind over the full value product and every keyword order is compared, on all remaining inputs, with CPython running the unbound "
+            "source with the parameters set; every bind sequence of length <= 3 over three value tuples must equal the same bind on a fresh object "
+            "and leave the unbound AST untouched; wrong/missing/extra keywords must raise.",
+    "note": "Trusted: pyref. ~60 templates; parameter domains <= 4-16 values.",
+    "ref": "§5 C08",
+}
+CHECKS["C10"] = {
+    "technique": "explicit-state search over API operation sequences on the live interpreter: fork() snapshots, canonical state hashing, invariants on every transition",
+    "text": "All sequences of <= 3 (quick) / <= 4 (thorough) operations from a 33-operation menu are explored with fork() as exact snapshot; states "
+            "(module namespaces, default arguments, live object fingerprints) are deduplicated by hash; on every transition: no damage to live "
+            "objects, result equal to the pristine-interpreter reference, raises iff the reference raises.",
+    "note": "Trusted: the canonical-state abstraction (argued in DESIGN §3.4); references validated against a genuinely fresh interpreter. Runs in one "
+            "worker: fork() does not parallelise in this sandbox.",
+    "ref": "§5 C10",
+}
+CHECKS["C11"] = {
+    "technique": "breadth-first enumeration of all gate sequences up to length L through the real QCircuit API; decompiler vs independent scanner + bit-parallel simulation",
+    "text": "Every circuit up to the bound is decompiled; sections, index ranges, gate lists and expressions are compared with an independent scan "
+            "and with the simulation of each run on all entry values.",
+    "note": "Trusted: bitsim/boolev. n <= 3 (4 for MCX), L <= 4-7.",
+    "ref": "§5 C11",
+}
+CHECKS["C12"] = {
+    "technique": "breadth-first enumeration of all gate sequences up to length L; unitary equality of optimizer output by state-vector simulation",
+    "text": "Every circuit up to the bound goes through circuit_boolean_optimizer; unitary, qubit count, gate count and operand integrity are checked.",
+    "note": "Trusted: svsim (cross-checked with qiskit). n <= 3, L <= 4-7.",
+    "ref": "§5 C12",
+}
+CHECKS["C13"] = {
+    "technique": "enumeration of all gate sequences over the full exportable gate set (L <= 2-3) plus compiled circuits, x exporters x modes; unitary / parsed-text equality",
+    "text": "Each circuit is exported with qiskit, cirq, sympy and QASM 2/3 in both modes; the exported object's unitary (or the parsed QASM) must be "
+            "the reference simulator's: same gates on the same qubit indices, one formal per qubit in index order.",
+    "note": "Trusted: qiskit Operator, cirq.unitary, sympy represent, svsim. pennylane/qutip not installed.",
+    "ref": "§5 C13",
+}
+CHECKS["C14"] = {
+    "technique": "exhaustive enumeration of circuit pairs x injective qubit maps, repeat counts, copies, shared-object gate sequences, qubit lists; unitary products + aliasing fingerprints",
+    "text": "append_circuit / + / += for every (a, b, injective map) of the pool, repeat(1..3), copy(), copy(vanilla), remove_identities on every "
+            "sequence of shared gate objects, qft/iqft on every injective qubit list; operands fingerprinted before, after and after mutating the result.",
+    "note": "Trusted: svsim. Pool circuits of length <= 2 on <= 3 qubits; remove_identities L <= 4-5.",
+    "ref": "§5 C14",
+}
+CHECKS["C15"] = {
+    "technique": "exhaustive enumeration of every solution set (|S| <= N/4) x syntactic forms; exact output distribution by sparse state simulation vs ideal-oracle construction",
+    "text": "For every solution set of the stated widths and seven ways of writing / compiling the predicate, the exact Grover output distribution "
+            "equals that of the same construction on an ideal oracle, ranks solutions first, exceeds 1/2, and decodes to the argument type.",
+    "note": "Trusted: sparse simulator (cross-checked with the dense one), ideal minterm oracle. n <= 4 (5 with |S| <= 2).",
+    "ref": "§5 C15",
+}
+CHECKS["C16"] = {
+    "technique": "exhaustive enumeration of all constant/balanced functions, all secrets, all periods; exact output distributions by sparse state simulation",
+    "text": "Deutsch-Jozsa on every constant/balanced function (n <= 3, 4 thorough), Bernstein-Vazirani on every secret (n <= 4, 5), Simon on every "
+            "period (n <= 3, 4) with three functions each; distributions and decoded outcomes must meet the textbook guarantees, with an ideal-oracle "
+            "twin to attribute failures.",
+    "note": "Trusted: sparse simulator, ideal oracle.",
+    "ref": "§5 C16",
+}
+CHECKS["C17"] = {
+    "technique": "enumeration of all command lines (scripts x forms x formats x entry points x I/O modes) through the real main(); parsed output compared on all assignments",
+    "text": "py2bexp / py2qasm main() are driven in-process for every combination; printed expressions are parsed and compared on every assignment, "
+            "DIMACS by brute-force variable bijection, QASM against the exporter and the C13 reader.",
+    "note": "Trusted: own parsers (round-trip checked), boolev. 12-function pool, <= 3 functions per script.",
+    "ref": "§5 C17",
+}
+CHECKS["C18"] = {
+    "technique": "bounded exhaustive enumeration of programs x 4 formats through the real to_bqm with a polynomial pyqubo stand-in; energies on every assignment",
+    "text": "The polynomial (and its QUBO/Ising/BQM tables) built by to_bqm is evaluated on every assignment of all its variables; ground states must be "
+            "the minimisers of the number of true return bits (zero energy at zeros), variables must be argument bits or declared auxiliaries, "
+            "decode_samples must return the argument values.",
+    "note": "Trusted: mc/stubs/pyqubo.py as the meaning of pyqubo constructs (real pyqubo absent); gadget identities checked exhaustively.",
+    "ref": "§5 C18",
+}
+
 ALL = ["C%02d" % i for i in range(1, 19)]
 NOT_APPLICABLE = {p: _PENDING for p in ALL if p not in CHECKS}
